@@ -1,6 +1,7 @@
 use crate::fw::*;
 pub mod c01;
 pub mod c04;
+pub mod c05;
 pub mod c06;
 pub mod c09;
 pub mod c10;
@@ -9,12 +10,14 @@ pub mod c13;
 pub mod c15;
 pub mod c17;
 pub mod c19;
+pub mod c20;
 pub mod c18;
 
 pub fn dispatch(ctx: &Ctx, findings: &Findings) -> Option<PropReport> {
     Some(match ctx.prop.as_str() {
         "C01" => c01::run(ctx, findings),
         "C04" => c04::run(ctx, findings),
+        "C05" => c05::run(ctx, findings),
         "C06" => c06::run(ctx, findings),
         "C09" => c09::run(ctx, findings),
         "C10" => c10::run(ctx, findings),
@@ -23,6 +26,7 @@ pub fn dispatch(ctx: &Ctx, findings: &Findings) -> Option<PropReport> {
         "C15" => c15::run(ctx, findings),
         "C17" => c17::run(ctx, findings),
         "C19" => c19::run(ctx, findings),
+        "C20" => c20::run_prop(ctx, findings),
         "C18" => c18::run(ctx, findings),
         _ => return None,
     })
